@@ -110,6 +110,7 @@ def run (ctx):
       facts = q.guard_facts(g, a)
       cap = any(r_ is not None and norm(l) == 'len(table)' and o == '<' and norm(r_) == 'self.max_entries' for l, o, r_, b in facts)
       ctx.ob('R-DOM', add, "insert only below table capacity", cap, "add_entry dominated by len(table) < self.max_entries" if cap else "facts: %s" % q.fact_strs(g, a), (swmod, a.ast), 'D2')
+    switchq.capacity_after_removal(ctx, repo, sw, 'D2')
     rme = ft.find_method('remove_matching_entries')
     TOK = {'flow_mod.match': '<match>', 'flow_mod.priority': '<priority>'}
     for rn in rems:
